@@ -257,6 +257,38 @@ def one_model(ctx, imp, tag):
                               'from (and stays one when another aggregate model using the same delegation ids is split)',
                               dict(w, delegation=d, diff=canon.diff(snap0, now)))
                 return
+    # the same ARM object splits the model again after the model has grown (a worker with a delegation of its own was added):
+    # the new partitions are partitions of the model as it is now
+    if tag % 3 == 1 and adms:
+        ctx.count('clause:split-again-after-the-model-grew')
+        for adm in adms.values():
+            imp.delete_graph(graph_id=adm.graph_id)
+        d_new = rng.choice(sorted(used))
+        nid = f'late-worker-{tag}-id'
+        entry = {'pool_id': '_', 'capacities': {'unit': 1, 'core': 4}}
+        w2 = dict(w, grown_by=nid, delegated_to=d_new)
+        try:
+            arm.add_node(node_id=nid, label='NetworkNode',
+                         props={'Name': f'late-worker-{tag}', 'Type': 'Server', 'Site': 'RENC',
+                                subgen.CAPD: json.dumps({d_new: entry})})
+            site.delegations[nid] = {subgen.CAPD: {d_new: entry}}
+            orig2 = canon.graph_snapshot(imp, gid)
+            adms2 = arm.generate_adms(delegation_guids={d: f'adm2-{d}-{tag}' for d in used})
+        except Exception as e:
+            ctx.violation('C13/generate-adms-raises', f'partitioning the grown model through the same ARM object raised {type(e).__name__}: '
+                          f'{str(e)[:200]}', w2)
+            return
+        after2 = canon.store_snapshot(imp)[0]
+        if set(adms2) != used:
+            ctx.violation('C13/partition-set-differs', 'one model per delegation id in use', dict(w2, got=sorted(adms2), expected=sorted(used)))
+            return
+        for d, adm in sorted(adms2.items()):
+            part = after2.get(adm.graph_id)
+            ctx.count('partitions:of-the-grown-model')
+            if part is None:
+                ctx.violation('C13/partition-empty', 'a partition exists in the store', dict(w2, delegation=d))
+                continue
+            check_partition(ctx, w2, orig2, part, d, site, gid)
     if tag == 0:
         ctx.sample({'kind': kind, 'script': site.script[:5], 'delegations': dict(list(site.delegations.items())[:3])})
 
